@@ -10,7 +10,8 @@ PROP = {
             "limit, every removal order, reclaim) + seeded random traces; after every step the active-list length and started flag "
             "(VerifServerSnapshot) and the probe outcome (response / closed) are compared with the labelled transition system. Idle "
             "scenario: k idle connections must be closed no earlier than the timeout after their last activity (and within +600 ms), "
-            "slots free again, new connection served.",
+            "slots free again, new connection served."
+            " Fixed traces also restart the server while the teardown of an old session is still pending (X1 P S C2 M ...): the limit must hold for the connections admitted after the restart.",
     "assumptions": ["goroutine scheduling and socket close semantics are exercised, not modelled; idle-expiry timing relies on Go's net deadlines"],
 }
 
